@@ -25,10 +25,24 @@ def jobs(tier):
     return js
 
 
+IDX_PATCHES = [
+    {"file": "internal/db/fetcher/versioned.go",
+     "anchor": "\troot := memory.NewDatastore(ctx)\n\tvf.root = root\n",
+     "replace": "\tvar root corekv.TxnStore\n\tif verifMemStore != nil {\n\t\troot = verifMemStore()\n\t} else {\n\t\troot = memory.NewDatastore(ctx)\n\t}\n\tvf.root = root\n"},
+]
+
+
+def idx_jobs(tier):
+    return [{"id": "O2.read-with-indexed-filter", "func": "VerifH_C03_ReadWithIndexedFilter", "conf": {"dag": "", "orders": "all", "shortid": 0, "del": -1},
+             "_obligation": "O2", "_covers": ["read"], "unwind": 60, "reset_mode": True}]
+
+
 PROPERTY = {
     "id": "C03",
     "suites": [{"name": "versioned", "pkg": "internal/db/fetcher", "files": ["zz_verif_c03.go"], "common": ["intrinsics", "kvmodel", "dagenv"],
-                "jobs": jobs, "overrides": OVR, "redirects": REDIR, "unwind": 40, "witnesses": {"quick": 12, "thorough": 32}}],
+                "jobs": jobs, "overrides": OVR, "redirects": REDIR, "unwind": 40, "witnesses": {"quick": 12, "thorough": 32}},
+               {"name": "readwithindex", "pkg": "internal/db/fetcher", "files": ["zz_verif_c03.go", "zz_verif_c03idx.go"], "common": ["intrinsics", "kvmodel", "dagenv", "kvtxn"],
+                "jobs": idx_jobs, "overrides": OVR, "redirects": REDIR, "patches": IDX_PATCHES, "unwind": 60}],
     "bounds": {"commits": "linear histories of 3 and 4 commits, a diamond, a diamond with a tail, two chains joined by a merge commit; every DAG of 3 (thorough 4) commits with <=2 parents", "target": "every commit", "fields": "one counter or one register field written by every commit"},
     "assumptions": _c02.PROPERTY["assumptions"],
     "outside_claim": ["subscriptions", "planner wiring (scanNode), ACP on this path, encrypted history", "the document fetcher that reads the transient store afterwards"],
